@@ -67,8 +67,9 @@ META.update({
 
 META.update({
     'C06': dict(level='other', assumptions=['A1', 'A2', 'A3', 'A5'], explanation=(
-        "proved (unbounded horizon): row families of _add_constrains_for_start_and_shutdown, _add_constraints_for_min_runtime, "
-        "_add_constraints_for_min_downtime, _add_constraints_for_heat from the real source, and the exactness lemmas C06.minrun/.mindown "
+        "proved (unbounded horizon): _add_dispatch_variables, _add_bool_variables, capacity rows and ramp rows (without start / shutdown ramp "
+        "profiles), row families of _add_constrains_for_start_and_shutdown, _add_constraints_for_min_runtime, "
+        "_add_constraints_for_min_downtime, _add_constraints_for_heat, _add_fuel_consumption from the real source, and the exactness lemmas C06.minrun/.mindown "
         "sound+complete, start flag at every transition. Bounded (never counted as proved): Plant assembled by the real driver, all 2^T on/off patterns "
         "pinned in the MIP vs a reference predicate; every clause of the statement (off => 0, capacity band, ramps incl. first step, start flags, heat "
         "share, fuel) on optimised CHP solutions. Capacity / ramp / fuel rows are not under contract. " + PROOF_NOTE)),
